@@ -171,7 +171,9 @@ fn read_all(c: &mut TcpStream) -> Vec<u8> {
 
 /// Reads one complete response (content-length framed), following 1xx interim responses.
 fn read_one_response(c: &mut TcpStream, acc: &mut Vec<u8>) -> bool {
-    let _ = c.set_read_timeout(Some(Duration::from_secs(10)));
+    if c.read_timeout().ok().flatten().is_none() {
+        let _ = c.set_read_timeout(Some(Duration::from_secs(10)));
+    }
     let mut buf = [0u8; 4096];
     let start = acc.len();
     loop {
@@ -229,7 +231,7 @@ pub fn case(ctx: &mut Ctx, tag: &str, small: &str, cache: &str, schedule: &str, 
         let all: Vec<u8> = specs.iter().flat_map(|s| s.0.clone()).collect();
         // read concurrently with writing: a reset caused by writing to a closed connection may discard
         // received data that has not been read yet
-        let reader = if sched != "pingpong" {
+        let reader = if sched != "pingpong" && sched != "hold" {
             let mut rc = client.try_clone().unwrap();
             Some(std::thread::spawn(move || read_all(&mut rc)))
         } else {
@@ -238,6 +240,7 @@ pub fn case(ctx: &mut Ctx, tag: &str, small: &str, cache: &str, schedule: &str, 
         let mut rng = Rng::new(seed);
         let mut peak = 0usize;
         let mut others: Vec<Vec<u8>> = Vec::new();
+        let mut early = false;
         match sched.as_str() {
             "single" => { let _ = client.write_all(&all); }
             "bytes" => { for b in &all { if client.write_all(&[*b]).is_err() { break; } } }
@@ -271,6 +274,18 @@ pub fn case(ctx: &mut Ctx, tag: &str, small: &str, cache: &str, schedule: &str, 
                 let _ = client.write_all(&all);
                 for h in hs { others.push(h.join().unwrap()); }
             }
+            "hold" => {
+                // send everything but keep the sending side open: does the answer arrive without waiting for EOF?
+                let _ = client.write_all(&all);
+                let _ = client.set_read_timeout(Some(Duration::from_millis(600)));
+                early = read_one_response(&mut client, &mut transcript);
+            }
+            s if s.starts_with("split") => {
+                let n: usize = s[5..].parse::<usize>().unwrap().min(all.len());
+                let _ = client.write_all(&all[..n]);
+                std::thread::sleep(Duration::from_millis(120));
+                let _ = client.write_all(&all[n..]);
+            }
             s if s.starts_with("cut") => {
                 // send only the first N bytes, then disconnect abruptly (after a short pause so the server starts the upload)
                 let n: usize = s[3..].parse::<usize>().unwrap().min(all.len());
@@ -301,7 +316,8 @@ pub fn case(ctx: &mut Ctx, tag: &str, small: &str, cache: &str, schedule: &str, 
                 transcript = b"TRANSCRIPTS-DIFFER".to_vec();
             }
         }
-        format!("calls={} wire={} files={}", log.join("|"), enc(&transcript), files_after.saturating_sub(before))
+        let e = if sched == "hold" { format!(" early={}", u8::from(early)) } else { String::new() };
+        format!("calls={} wire={} files={}{e}", log.join("|"), enc(&transcript), files_after.saturating_sub(before))
     });
     ctx.emit(tag, &[small, cache, schedule, requests], &obs);
 }
@@ -340,9 +356,24 @@ pub fn run(ctx: &mut Ctx) {
             reqs.push(spec);
         }
         let total: usize = reqs.iter().map(|r| r.len()).sum();
-        let sched = match rng.below(6) { 0 | 1 => "single", 2 if total < 1500 => "bytes", 3 => "frag", 4 => "pingpong", _ => "single" };
+        let wire_len: usize = reqs.iter().map(|r| request_bytes(r).0.len()).sum();
+        let cut = format!("cut{}", rng.below(wire_len as u64 + 1));
+        let sched = match rng.below(8) { 0 | 1 => "single", 2 if total < 1500 => "bytes", 3 => "frag", 4 => "pingpong", 5 | 6 => cut.as_str(), _ => "single" };
         if ctx.mine(i) {
             case(ctx, "c04", &small.to_string(), if cache { "1" } else { "0" }, sched, &reqs.join(";"));
+        }
+    }
+    // pipelines of padded requests (more than the 8 KiB connection buffer in flight), delivered in two writes with a pause,
+    // so that a request head straddles the end of the buffer while earlier requests are still being answered
+    let np = if ctx.thorough() { 400 } else { 60 };
+    for i in 0..np {
+        let k = rng.range(12, 16);
+        let pad = rng.range(700, 900) as usize;
+        let reqs: Vec<String> = (0..k).map(|j| format!("GET:/p{j}/{}:n::n200", "x".repeat(pad))).collect();
+        let wire_len: usize = reqs.iter().map(|r| request_bytes(r).0.len()).sum();
+        let split = rng.range(7000, 8191.min(wire_len as u64 - 1));
+        if ctx.mine(n + i) {
+            case(ctx, "c04", "100", "1", &format!("split{split}"), &reqs.join(";"));
         }
     }
 }
@@ -356,6 +387,7 @@ fn rng_pick<T>(xs: &[T]) -> &T {
 
 /// C09: the S x M x L boundary grid (declared / undeclared, with / without Expect, cache dir on / off).
 pub fn run_c09(ctx: &mut Ctx) {
+    run_c09_hold(ctx);
     let mut idx = 0u64;
     for s in [0u64, 1, 100, 65536] {
         let mut ms: Vec<u64> = vec![0, 1, s.saturating_sub(1), s, s + 1, 70_000, 1 << 63, u64::MAX];
@@ -386,6 +418,20 @@ pub fn run_c09(ctx: &mut Ctx) {
                     }
                 }
             }
+        }
+    }
+}
+
+/// C09: an over-limit body of undeclared length is refused after M+1 bytes, without waiting for the end of the stream.
+pub fn run_c09_hold(ctx: &mut Ctx) {
+    let mut idx = 0u64;
+    for m in [0u64, 10, 1000, 70_000] {
+        for extra in [-5i64, 0, 1, 2, 50, 5000] {
+            let l = (m as i64 + extra).max(0) as usize;
+            idx += 1;
+            if !ctx.mine(idx) { continue; }
+            let body = enc(&vec![b'h'; l]);
+            case(ctx, "c09", "100", "1", "hold", &format!("POST:/r0:u:{body}:g{m}"));
         }
     }
 }
